@@ -363,19 +363,33 @@ where
         let (new_laidx, n_pstack) =
             self.parser
                 .lr_cactus(None, laidx, laidx + 1, n.pstack.clone(), &mut None);
-        // Note that shifting a lexeme can leave the parse stack unchanged (e.g. with a left-recursive
-        // rule `L: L 'x'`, shifting an `x` after an `L 'x'` reduces and then leads back to the same
-        // states): that is still progress.
-        if new_laidx > laidx || n.pstack != n_pstack {
-            let n_repairs = if new_laidx > laidx {
-                n.repairs.child(RepairMerge::Repair(Repair::Shift))
-            } else {
-                n.repairs.clone()
-            };
+        if new_laidx > laidx {
+            // A lexeme was shifted. Note that the parse stack might be unchanged afterwards (e.g.
+            // with a left-recursive rule `L: L 'x'`, shifting an `x` after an `L 'x'` reduces and
+            // then leads back to the same states): that is still progress.
             let nn = PathFNode {
                 pstack: n_pstack,
                 laidx: new_laidx,
-                repairs: n_repairs,
+                repairs: n.repairs.child(RepairMerge::Repair(Repair::Shift)),
+                cf: n.cf,
+            };
+            nbrs.push((nn.cf, nn));
+        } else if n.pstack != n_pstack
+            && matches!(
+                self.parser
+                    .stable
+                    .action(*n_pstack.val().unwrap(), self.parser.next_tidx(laidx)),
+                Action::Accept
+            )
+        {
+            // No lexeme was shifted, but the reductions lead to the accept state. Reductions which
+            // instead end in an error must not become a new node: they were performed with the
+            // next real lexeme as lookahead, so an Insert or Delete explored from the reduced
+            // stack can't be replayed from the real stack (where a different lookahead is seen).
+            let nn = PathFNode {
+                pstack: n_pstack,
+                laidx: new_laidx,
+                repairs: n.repairs.clone(),
                 cf: n.cf,
             };
             nbrs.push((nn.cf, nn));
